@@ -103,6 +103,20 @@ Theorem C13_Proxy_precond_no_panic : forall ws r,
 Proof. exact Proxy_precond_no_panic. Qed.
 Print Assumptions C13_Proxy_precond_no_panic.
 
+(** Pipeline, PARTIAL: accepted by the repaired Spec.Validate => every flow node names END or a declared filter,
+    every nested filter reaches no modelled Init panic site (kinds outside [cv_leaf]: no null entry), the
+    retry / circuit-breaker policy names of nested Proxy pools resolve to policies of the right kind, and only
+    builders run in a namespace of their own.  Not covered: Handle-time panics of nested filters. *)
+Theorem C13_Pipeline_valid_implies_precond_partial : forall o g,
+  pipeline_validate o ideal g = true ->
+  let fs := nested o ideal "filter" (aget "filters" g) (o_filters o) in
+  let decls := map (fun f => let '(_, n, k, _) := f in (n, k)) fs in
+  (forall n, In n (aget "flow" g) -> sget "filter" n = "END" \/ exists k, alookup (sget "filter" n) decls = Some k) /\
+  pipeline_may_init o ideal g = false /\
+  flow_namespace_bad decls g = false.
+Proof. exact Pipeline_valid_implies_precond_partial. Qed.
+Print Assumptions C13_Pipeline_valid_implies_precond_partial.
+
 (** the hand-modelled Validate() methods are all the Validate() methods the code can reach for the modelled kinds
     (from the GENERATED list: a new Validate() method in /repo breaks this obligation) *)
 Theorem C13_validators_modelled : validators_covered ("Pipeline" :: cv_leaf) = true.
